@@ -7,6 +7,7 @@ import (
 	"os"
 	"regexp"
 	"sort"
+	"strconv"
 	"strings"
 	"testing"
 
@@ -233,13 +234,55 @@ func evaluate(e *eco, req string, pool []string, onEval func(v string, refTrue b
 // ordered below 0 as a finding for open lower bounds).
 var emptyAltRE = regexp.MustCompile(`^\s*\|\||\|\|\s*$|\|\|\s*\|\|`)
 
+// GreaterThanStepsOverPrerelease: ">X" is stored as the closed bound at the
+// version after X (">1.2.3" is [1.2.4:...), so a prerelease of that next
+// version (1.2.4-beta.1 > 1.2.3), which the reference admits when another
+// comparator names a prerelease of the same numbers, falls below the bound.
+var strictGreater = regexp.MustCompile(`>\s*v?([0-9]+)(?:\.([0-9]+))?(?:\.([0-9]+))?([-+0-9A-Za-z.]*)`)
+
+func steppedOverPrerelease(req, v string) bool {
+	num, _, isPre := strings.Cut(strings.TrimPrefix(v, "v"), "-")
+	if !isPre {
+		return false
+	}
+	if i := strings.IndexByte(num, '+'); i >= 0 {
+		num = num[:i]
+	}
+	for _, m := range strictGreater.FindAllStringSubmatchIndex(req, -1) {
+		sub := strictGreater.FindStringSubmatch(req[m[0]:])
+		if strings.HasPrefix(req[m[0]+1:], "=") || strings.HasPrefix(sub[4], "-") {
+			continue
+		}
+		a, _ := strconv.Atoi(sub[1])
+		var next string
+		switch {
+		case sub[2] == "":
+			next = fmt.Sprintf("%d.0.0", a+1)
+		case sub[3] == "":
+			b, _ := strconv.Atoi(sub[2])
+			next = fmt.Sprintf("%d.%d.0", a, b+1)
+		default:
+			b, _ := strconv.Atoi(sub[2])
+			c, _ := strconv.Atoi(sub[3])
+			next = fmt.Sprintf("%d.%d.%d", a, b, c+1)
+		}
+		if next == num {
+			return true
+		}
+	}
+	return false
+}
+
 func knownClass(e *eco, f failure, req string) string {
 	switch e.name {
 	case "npm":
+		if (f.law == "match" || f.law == "matchrequirement") && strings.Contains(f.expected, "true") && steppedOverPrerelease(req, f.v) && kf.Open("C03", "GreaterThanStepsOverPrerelease") {
+			return "GreaterThanStepsOverPrerelease"
+		}
 		if f.law == "rejected-nonempty" && emptyAltRE.MatchString(req) && kf.Open("C03", "NPMEmptyAlternative") {
 			return "NPMEmptyAlternative"
 		}
-		if f.law == "rejected-nonempty" && strings.Contains(req, " - ") && strings.Contains(f.observed, "impossible constraint: max greater than min") && kf.Open("C03", "NPMHyphenUpperBelowLower") {
+		if f.law == "rejected-nonempty" && strings.Contains(req, " - ") && (strings.Contains(f.observed, "impossible constraint: max greater than min") || strings.Contains(f.observed, "newSpan: max less than min")) && kf.Open("C03", "NPMHyphenUpperBelowLower") {
 			return "NPMHyphenUpperBelowLower"
 		}
 	case "cargo":
